@@ -23,6 +23,7 @@ mod schema;
 mod c16;
 mod c04;
 mod c04t;
+mod c04m;
 mod typed;
 mod c07;
 mod streamraw;
@@ -67,7 +68,10 @@ fn main() {
         "C08" => c08::run(&mut sink, thorough, seed),
         "C15" => c15::run(&mut sink, thorough, seed),
         "C16" => { c16::run(&mut sink, thorough, seed); typed::run_tt(&mut sink, thorough, seed); }
-        "C04" => c04::run(&mut sink, thorough, seed),
+        "C04" => {
+            c04::run(&mut sink, thorough, seed);
+            c04m::run(&mut sink, thorough, seed);
+        }
         "C07" => c07::run(&mut sink, thorough, seed),
         "replay" => { /* replay lines are `op args…` on stdin */
             let mut s = String::new();
@@ -108,6 +112,7 @@ fn replay(sink: &mut common::Sink, toks: &[&str]) {
         "tov" | "tovagree" => c15::replay(sink, toks),
         "c16" => c16::replay(sink, toks),
         "rtv" | "rtt" => c04::replay(sink, toks),
+        "rtm" => c04m::replay(sink, toks),
         "tt" | "tt3" | "pfxs" | "rfaults" => typed::replay(sink, toks),
         "f64rt" | "f32rt" | "f64pr" | "f32pr" | "f32all" => c07::replay(sink, toks),
         "rawser" | "rawnest" | "stream3" | "sdepth" | "spfx" | "raw3" => streamraw::replay(sink, toks),
